@@ -16,7 +16,7 @@ LEVEL = 'model_checking'
 RULE = ('for every formula of the set, every way of naming a subset of its proper sub-formula occurrences as sub-specifications (identical '
         'sub-formulas share a name, i.e. are referenced twice; nested names), presented through add_sub_spec() and as one multi-assertion text, '
         'plus declared constants for thresholds and bounds; discrete online (plain and pastified): product BFS of the real modular monitor, every '
-        'update() must equal the reference rho of the INLINED formula (delayed by the horizon after pastify); discrete/dense offline: all traces / '
+        'update() must equal the reference rho of the INLINED formula (delayed by the horizon after pastify); discrete/dense offline: all traces (discrete: a second time through ONE data set that the caller refills in place before each evaluate()) / '
         'grid signals, values equal to the inlined reference; dense online: all schedules of probe signals; non-trivial = checked transition/evaluation of a specification with at least one stateful named sub-formula')
 ASSUMPTIONS = ['reference of the inlined formula (vf/refsem.py, vf/dref.py); C02/C04 establish that the inlined monitor equals that reference',
                'formulas <= 2 operators plus selected 3-operator shapes; value alphabets V3/{-1,2}']
@@ -300,6 +300,36 @@ def offline_dt(res, mod, f, subs, text, form):
             res.violation(mod, dict(case0, trace=w), msg)
             res.outcomes['dt_off mismatch'] += 1
         res.digest(t, tr, msg)
+    # the same traces through ONE data set that the caller refills in place before each evaluate() (a second object)
+    spec2 = impl.build('dt_off', t, vs, **kw)
+    buf = {'time': []}
+    prev = None
+    for tr in F.traces(3, F.V3 if len(vs) == 1 else F.V2, len(vs)):
+        w = F.trace_dict(tr, vs)
+        res.evaluations += 1
+        msg = refilled_case(spec2, buf, f, w)
+        if msg:
+            res.violation(mod, dict(case0, trace=w, refilled_after=prev), msg)
+            res.outcomes['dt_off mismatch (refilled data set)'] += 1
+        else:
+            res.nontrivial += 1
+            res.flags['refilled_data_set_cases'] += 1
+        prev = w
+        res.digest(t, tr, 'refilled', msg)
+
+
+def refilled_case(spec, buf, f, w):
+    n = len(next(iter(w.values())))
+    buf['time'][:] = list(range(n))
+    for v, vals in w.items():
+        buf.setdefault(v, [])[:] = vals
+    kind, val = impl.outcome(spec.evaluate, buf)
+    ref = refsem.ev(f, w, n)
+    if kind != 'ok':
+        return 'evaluate() raised %s' % (val,)
+    if not refsem.same_list([q[1] for q in val], ref):
+        return 'modular offline result %r differs from the inlined reference %r (the caller keeps one data set and refills its lists in place)' % ([q[1] for q in val], ref)
+    return None
 
 
 DENSE_OK = lambda f: not F.has_op(f, ('prev', 's_prev', 'next', 's_next', 'rise', 'fall'))
@@ -435,6 +465,12 @@ def replay(case):
                           consts=[tuple(c) for c in case.get('consts', ())])
         w = case['trace']
         n = len(next(iter(w.values())))
+        if 'refilled_after' in case:
+            buf = {'time': []}
+            if case['refilled_after']:
+                refilled_case(spec, buf, f, case['refilled_after'])
+            m = refilled_case(spec, buf, f, w)
+            return [m] if m else []
         k, val = impl.outcome(impl.dt_evaluate, spec, w)
         ref = refsem.ev(f, w, n)
         if k != 'ok':
